@@ -32,7 +32,7 @@ def _run_tree(args):
     chk = cli.run_breadlog(os.path.join(proj, "Breadlog.yaml"), check=True, cwd=work, tmpdir=tmp, timeout=600)
     if chk.panicked or chk.timed_out:
         return [{"class": "cli-crash", "detail": "--check crashed on a batch whose files all parse in-process: %r %s" % (chk, chk.stderr[-300:]), "label": None, "code": ""}]
-    rep = cli.Report(chk.stdout)
+    rep = cli.Report(chk.stdout, names=list(names), src=os.path.join(proj, "src"), err=chk.stderr)
     by_file = {}
     for fn, l, c in rep.missing:
         by_file.setdefault(os.path.basename(fn), []).append((l, c))
